@@ -608,7 +608,7 @@ func TestVerif_C32_Factory(t *testing.T) {
 	defer os.RemoveAll(staging)
 	f := c32NewFactory(staging, store)
 	one := [][]c32Mem{{}, {{ID: 1, Nm: "r1"}}, {{ID: 1, Nm: "r1x"}}}
-	two := [][]c32Mem{{}, {{ID: 2, Nm: "r2"}}, {{ID: 2, Nm: "r2x"}}}
+	two := [][]c32Mem{{}, {{ID: 2, Nm: "a2"}}, {{ID: 2, Nm: "a2x"}}}
 	for _, a := range one {
 		for _, b := range two {
 			mem := append(append([]c32Mem{}, a...), b...)
